@@ -30,6 +30,9 @@ type InputSpec struct {
 	Source  string        `json:"source"`
 	// AllowedObjects: optional allowed_objects filter
 	AllowedObjects []string `json:"allowed_objects,omitempty"`
+	// Transforms: contents of transformation files (`passes:` lists) applied
+	// to this input
+	Transforms []string `json:"transforms,omitempty"`
 	// Meta: schema metadata (kind / variant / identifier), e.g. a composable
 	// panelcfg plugin
 	Meta *InputMeta `json:"meta,omitempty"`
@@ -67,6 +70,9 @@ type OutputSpec struct {
 	OpenAPI    bool     `json:"openapi,omitempty"`
 	// Veneers: contents of veneer YAML files (builder / option rewrite rules)
 	Veneers []string `json:"veneers,omitempty"`
+	// CommonPasses: contents of transformation files (`passes:` lists) applied
+	// to all the schemas
+	CommonPasses []string `json:"common_passes,omitempty"`
 }
 
 type GoFlags struct {
@@ -89,13 +95,21 @@ func WriteInputs(dir string, inputs []InputSpec) ([]*codegen.Input, error) {
 		return nil, err
 	}
 	for i, in := range inputs {
+		var transforms []string
+		for k, content := range in.Transforms {
+			tp := filepath.Join(dir, fmt.Sprintf("transform%02d_%02d.yaml", i, k))
+			if err := os.WriteFile(tp, []byte(content), 0o644); err != nil {
+				return nil, err
+			}
+			transforms = append(transforms, tp)
+		}
 		switch in.Format {
 		case smodel.JSONSchema:
 			p := filepath.Join(dir, fmt.Sprintf("in%02d_%s.json", i, in.Package))
 			if err := os.WriteFile(p, []byte(in.Source), 0o644); err != nil {
 				return nil, err
 			}
-			out = append(out, &codegen.Input{JSONSchema: &codegen.JSONSchemaInput{Path: p, Package: in.Package, InputBase: codegen.InputBase{AllowedObjects: in.AllowedObjects, Metadata: in.Meta.ast()}}})
+			out = append(out, &codegen.Input{JSONSchema: &codegen.JSONSchemaInput{Path: p, Package: in.Package, InputBase: codegen.InputBase{AllowedObjects: in.AllowedObjects, Metadata: in.Meta.ast(), Transforms: transforms}}})
 		case smodel.OpenAPI:
 			p := filepath.Join(dir, fmt.Sprintf("in%02d_%s.openapi.json", i, in.Package))
 			if in.FileName != "" {
@@ -104,7 +118,7 @@ func WriteInputs(dir string, inputs []InputSpec) ([]*codegen.Input, error) {
 			if err := os.WriteFile(p, []byte(in.Source), 0o644); err != nil {
 				return nil, err
 			}
-			out = append(out, &codegen.Input{OpenAPI: &codegen.OpenAPIInput{Path: p, Package: in.Package, InputBase: codegen.InputBase{AllowedObjects: in.AllowedObjects, Metadata: in.Meta.ast()}}})
+			out = append(out, &codegen.Input{OpenAPI: &codegen.OpenAPIInput{Path: p, Package: in.Package, InputBase: codegen.InputBase{AllowedObjects: in.AllowedObjects, Metadata: in.Meta.ast(), Transforms: transforms}}})
 		case smodel.CUE:
 			d := filepath.Join(dir, fmt.Sprintf("in%02d", i), in.Package)
 			if err := os.MkdirAll(d, 0o755); err != nil {
@@ -113,7 +127,7 @@ func WriteInputs(dir string, inputs []InputSpec) ([]*codegen.Input, error) {
 			if err := os.WriteFile(filepath.Join(d, "schema.cue"), []byte(in.Source), 0o644); err != nil {
 				return nil, err
 			}
-			out = append(out, &codegen.Input{Cue: &codegen.CueInput{Entrypoint: d, Package: in.Package, InputBase: codegen.InputBase{AllowedObjects: in.AllowedObjects, Metadata: in.Meta.ast()}}})
+			out = append(out, &codegen.Input{Cue: &codegen.CueInput{Entrypoint: d, Package: in.Package, InputBase: codegen.InputBase{AllowedObjects: in.AllowedObjects, Metadata: in.Meta.ast(), Transforms: transforms}}})
 		default:
 			return nil, fmt.Errorf("unknown format %q", in.Format)
 		}
@@ -143,6 +157,20 @@ func NewPipeline(workDir string, outDir string, inputs []InputSpec, o OutputSpec
 			}
 		}
 		p.Transforms.VeneersDirectories = []string{vdir}
+	}
+	if len(o.CommonPasses) > 0 {
+		var files []string
+		for i, content := range o.CommonPasses {
+			fp := filepath.Join(workDir, fmt.Sprintf("common%02d.yaml", i))
+			if err := os.MkdirAll(workDir, 0o755); err != nil {
+				return nil, err
+			}
+			if err := os.WriteFile(fp, []byte(content), 0o644); err != nil {
+				return nil, err
+			}
+			files = append(files, fp)
+		}
+		p.Transforms.CommonPassesFiles = files
 	}
 	p.Output.Directory = outDir
 	p.Output.Types, p.Output.Builders, p.Output.Converters, p.Output.APIReference = o.Types, o.Builders, o.Converters, o.APIReference
